@@ -17,6 +17,9 @@ def run(ctx, R, tier):
     frac(F, R)
     assign_ops(F, R)
     c17.mapping(F, R)
+    # the easings are built from powers: their domain conditions are obligations (A.singular)
+    from ..enginea import run_singular_only
+    run_singular_only(R, F, lambda fn: fn.startswith('tween::'), floor=2)
 
 
 def db(F, R):
@@ -154,6 +157,14 @@ def assign_ops(F, R):
                     d = describe_rv(b, s['rv'], depth=6, at=bb)
                     if rhs in d or '_2' in d:
                         dep.append(d[:80])
+            # ... and once: the update is not applied a second time on the same path (`t -= n` subtracting 2n)
+            sts = [(bb, si, pretty_place(b, s['lhs'])) for bb, si, s in b.stmts()
+                   if s['k'] == 'assign' and s['lhs']['p'] and pretty_place(b, s['lhs']).startswith('(*self)')
+                   and (rhs in describe_rv(b, s['rv'], depth=6, at=bb) or '_2' in describe_rv(b, s['rv'], depth=6, at=bb))]
+            twice = any(p1 == p2 and (b1, i1) != (b2, i2) and (b2 in b.reach_after(b1) or (b1 == b2 and i1 < i2))
+                        for b1, i1, p1 in sts for b2, i2, p2 in sts)
+            R.check(not twice, 'B.C19.assign', it['path'] + ':once', '%s applies its right-hand side to *self twice on one path' % it['path'],
+                    detail={'stores': len(sts)}, where=b.file)
             R.check(bool(dep) , 'B.C19.assign', it['path'],
                     '%s does not store anything that depends on its right-hand side into *self' % it['path'],
                     detail={'stores': dep[:2]}, where=b.file)
